@@ -222,6 +222,59 @@ def gen_fusion_case(rng, coding_p=0.8):
                              'acc_gene': ga['id'], 'acc_tx': ta['id'], 'abp': abp, 'row': row}]}
     raise RuntimeError('fusion generator failed')
 
+# ------------------------------------------------------------------ two Sec codons in one uncleaved stretch
+def gen_twosec_case(rng):
+    """single-isoform coding gene whose CDS is rewritten to carry TWO annotated Sec codons 3-6 residues apart
+    with no K/R/P between them, plus an in-frame insertion / deletion between the two (and 0-2 SNVs nearby):
+    the geometry in which a Sec truncation offset of one allele can leak to the other"""
+    for _ in range(300):
+        world = G.gen_world(rng, n_chrom=1, max_genes=2, coding_p=1.0, small=True, sec_p=0.0, nf_p=0.0, multi_iso_p=0.0)
+        cands = [(g, g['transcripts'][0]) for g in world['genes']
+                 if len(g['transcripts']) == 1 and g['transcripts'][0]['cds'] and not g['transcripts'][0]['tags']
+                 and (g['transcripts'][0]['cds'][1] - g['transcripts'][0]['cds'][0]) // 3 >= 22]
+        if not cands:
+            continue
+        gene, tx = rng.choice(cands)
+        cs, ce = tx['cds']
+        ncod = (ce - cs) // 3
+        i = rng.randint(3, ncod - 14)
+        gap = rng.choice([3, 4, 5, 6])
+        j = i + gap + 1
+        res = [rng.choice('ADEFGHILMNQSTVWY') for _ in range(gap + 8)]
+        dna = [rng.choice(G.BACK[a]) for a in res]
+        dna[2] = 'TGA'; dna[2 + gap + 1] = 'TGA'
+        first = i - 2
+        chrom = list(world['chroms'][gene['chrom']])
+        G._write_into(chrom, gene, tx['exons'], cs + 3 * first, ''.join(dna))
+        world['chroms'][gene['chrom']] = ''.join(chrom)
+        secs = [cs + 3 * i, cs + 3 * j]
+        if any(len(G._segments(gene, tx, p, p + 3)) != 1 for p in secs):
+            continue
+        tx['sec'] = secs
+        if 'U' not in (G.protein_of(world, gene, tx) or ''):
+            continue
+        gseq = G.gene_seq(world, gene)
+        rows, seen = [], set()
+        tp = rng.randint(cs + 3 * i + 3, cs + 3 * j - 2)
+        gs = G.g2gene(gene, G.tx2g(gene, tx, tp))
+        if rng.random() < 0.5:
+            ref, alt = gseq[gs], gseq[gs] + rng.choice(G.BACK[rng.choice('ADEFGHILMNQSTVWY')])
+        else:
+            ref, alt = gseq[gs:gs + 4], gseq[gs]
+        if len(ref) == 4 and map_record(gene, tx, gs, gs + 4)[0] != 'exonic':
+            continue
+        recs = [(gs, ref, alt)]
+        for _k in range(rng.choice([0, 1, 2])):
+            tq = rng.randint(max(cs + 3, cs + 3 * i - 12), min(ce - 1, cs + 3 * j + 14))
+            g2 = G.g2gene(gene, G.tx2g(gene, tx, tq))
+            recs.append((g2, gseq[g2], _mut_base(rng, gseq[g2])))
+        for gs_, ref_, alt_ in sorted(set(recs)):
+            if map_record(gene, tx, gs_, gs_ + len(ref_))[0] != 'outside':
+                rows.append([gene['id'], gs_ + 1, var_id(gs_, ref_, alt_), ref_, alt_, tx['id'], gene['name']])
+        if rows:
+            return {'world': world, 'gvf': rows, 'gene': gene['id'], 'target': tx['id'], 'tag': 'twosec'}
+    raise RuntimeError('two-Sec generator failed')
+
 # ------------------------------------------------------------------ oracle inputs
 def find_gene(world, gid):
     return next(g for g in world['genes'] if g['id'] == gid)
